@@ -64,7 +64,7 @@ def run(prop, tier, seed):
         args = list(g['args'])
         if '-Z' not in args or 'unstable-options' not in args:
             args += ['-Z', 'unstable-options']
-        args += ['--harness-timeout', os.environ.get('VERIF_KANI_HARNESS_TIMEOUT', '600s')]
+        args += ['--harness-timeout', os.environ.get('VERIF_KANI_HARNESS_TIMEOUT', '900s' if g['tier'] == 'thorough' else '600s')]
         cmd = ['cargo', 'kani', '-j', '16', '--output-format', 'terse', '--harness', g['pattern']] + args
         rc, so, se, wall = sh(cmd, timeout=int(os.environ.get('VERIF_KANI_TIMEOUT', '3000')), cwd=KDIR, env=env)
         out['cmds'].append('(cd kani && %s)' % ' '.join(cmd))
@@ -120,5 +120,7 @@ register('C17', 'c17::left_u8', args=['-Z', 'unstable-options', '--no-overflow-c
 register('C17', 'c17::left_i8', tier='thorough', args=['-Z', 'unstable-options', '--no-overflow-checks'])
 register('C17', 'c17p::', bounded='iter::Product / Sum of Matrix2, Quaternion, Basis3 over at most 3 elements of the 8-bit ring W8; unwinding assertions on')
 register('C17', 'c17::sums', bounded='iterators of at most 4 (Vector3<i32>) / 3 (Rad<f32>) elements; unwinding assertions on', args=['-Z', 'unstable-options', '--no-overflow-checks'])
+register('C18', 'c18::is_finite', args=['-Z', 'unstable-options', '--no-overflow-checks'])
+register('C18', 'c18::', tier='thorough', args=['-Z', 'unstable-options', '--no-overflow-checks'])
 register('C19', 'c19::')
 register('C20', 'c20::')
